@@ -35,6 +35,13 @@ def _under(path):
     return None
 
 
+def set_fault(n, err=24):
+    """The n-th boundary of this process (counted from the installation of the shim) fails once with OSError(err)
+    instead of being performed (24 = EMFILE: a transient condition)."""
+    _state["fail_at"] = n
+    _state["fail_errno"] = err
+
+
 def gate(kind, path):
     rel = _under(path)
     if rel is None:
@@ -45,6 +52,16 @@ def gate(kind, path):
         return
     n = st["n"]
     st["n"] = n + 1
+    try:
+        _gate(st, mode, n, kind, rel)
+    finally:
+        pass
+    if st.get("fail_at") == n and kind != "start":
+        st["fail_at"] = None
+        raise OSError(st.get("fail_errno", 24), "injected transient failure before %s" % kind, rel)
+
+
+def _gate(st, mode, n, kind, rel):
     if mode == "trace":
         st["trace"].append((kind, rel))
     elif mode == "crash":
@@ -234,7 +251,7 @@ def _os_fdopen(fd, mode="r", buffering=-1, encoding=None, *args, **kwargs):
 def install(root, mode, crash_at=None, crash_report=None, idx=None, ctl_w=None, go_r=None):
     """Installs the shim in this process (call in a forked child only)."""
     st = _state
-    st.update({"root": os.path.abspath(root), "n": 0, "crash_at": crash_at, "crash_report": crash_report, "trace": [], "idx": idx, "ctl_w": ctl_w, "go_r": go_r, "fdpaths": {}})
+    st.update({"root": os.path.abspath(root), "n": 0, "fail_at": None, "crash_at": crash_at, "crash_report": crash_report, "trace": [], "idx": idx, "ctl_w": ctl_w, "go_r": go_r, "fdpaths": {}})
     if not st["installed"]:
         _orig["open"] = builtins.open
         for name in ("stat", "lstat", "readlink", "mkdir", "remove", "unlink", "rmdir", "listdir", "scandir", "truncate", "utime", "chmod", "rename", "replace", "symlink", "link", "open", "write", "read", "close", "fdopen"):
